@@ -528,6 +528,24 @@ func histOps(thorough bool) []histOp {
 			ok:  func(s *histStart) bool { return !s.isNil && s.ver == inst.ver && s.level == inst.level && s.decoded },
 			run: func(o any) string { lib.Decode(o, inst.s); return "" }})
 	}
+	// a constructor result whose fields were assigned, then Decode of exactly the vector it already
+	// holds: the fields stay what they are, the private table of written names fills (round 7,
+	// C15-B-r7: an Encode memo re-validated against the exported fields only)
+	ops = append(ops, histOp{name: "Decode(the vector whose values the object already holds by assignment) on the same object", kind: 'm',
+		ok: func(s *histStart) bool {
+			return s.ver == 3 && s.tokens != nil && strings.Contains(s.id, "built by assigning")
+		},
+		run: func(o any) string {
+			_, lv := lib.VerLevel(o)
+			tok := map[string]string{}
+			for _, m := range spec.UpTo(3, lv) {
+				if k, ok := lib.Field(o, m.Name); ok {
+					tok[m.Name] = lib.EnumOf(3, m.Name).Str(k)
+				}
+			}
+			lib.Decode(o, canonicalWritten(3, lv, lib.V3Ver(o), tok))
+			return ""
+		}})
 	ops = append(ops, histOp{name: "replace the embedded lower-level object by that of another decoded vector", kind: 'm',
 		ok: func(s *histStart) bool { return !s.isNil && s.level >= 1 && (thorough || s.decoded) },
 		run: func(o any) string {
@@ -987,24 +1005,43 @@ func longChurn(r *ev.Run, thorough bool) {
 				}
 				return hashStr(observables(o))
 			}
-			first := make([]string, 0, 80)
-			for k := 0; k < N; k++ {
-				h := dec(vec(uint64(k)))
-				if k < 80 {
-					first = append(first, h)
+			// N strings that are pairwise distinct
+			seen := map[string]bool{}
+			var strs []string
+			for k := uint64(0); len(strs) < N+400 && k < uint64(8*N); k++ {
+				if v := vec(k); !seen[v] {
+					seen[v] = true
+					strs = append(strs, v)
 				}
 			}
-			for j := 0; j < 64; j++ {
-				for _, idx := range []int{j, j + 1} {
-					if got := dec(vec(uint64(idx))); got != first[idx] {
-						r.Violate(ev.Violation{Kind: "result-depends-on-what-was-decoded-before", Case: map[string]any{"cvss": ver, "decoder": spec.LevelNames[level], "vector": vec(uint64(idx)),
-							"history": fmt.Sprintf("%d distinct vectors decoded once each on fresh objects (this one was number %d); then, for j = 0..%d: decode vector j again, decode one vector new to the process, decode vector j+1 again", N, idx, j)},
-							Observed: "hash " + got, Expected: "hash " + first[idx] + " (its first decode)"})
-						j = 64
-						break
-					}
-					if idx == j {
-						dec(vec(uint64(N + j)))
+			if len(strs) < N+400 {
+				continue
+			}
+			first := make([]string, N)
+			for k := 0; k < N; k++ {
+				first[k] = dec(strs[k])
+			}
+			// the oldest survivors of a table of 2^k entries sit at N-2^k: around each such place (and
+			// at the very beginning) decode vector j again, one new vector, vector j+1 again
+			fresh := N
+			bad := false
+			for _, start := range []int{N - 8192, N - 4096, N - 2048, N - 1024, N - 512, N - 256, N - 65536, N - 32768, N - 16384, 0} {
+				if start < 0 || bad {
+					continue
+				}
+				for j := start; j < start+12 && j+1 < N && !bad; j++ {
+					for _, idx := range []int{j, j + 1} {
+						if got := dec(strs[idx]); got != first[idx] {
+							r.Violate(ev.Violation{Kind: "result-depends-on-what-was-decoded-before", Case: map[string]any{"cvss": ver, "decoder": spec.LevelNames[level], "vector": strs[idx],
+								"history": fmt.Sprintf("%d distinct vectors decoded once each on fresh objects (this one was number %d); then, from number %d on: decode vector j again, decode one vector new to the process, decode vector j+1 again", N, idx, start)},
+								Observed: "hash " + got, Expected: "hash " + first[idx] + " (its first decode)"})
+							bad = true
+							break
+						}
+						if idx == j && fresh < len(strs) {
+							dec(strs[fresh])
+							fresh++
+						}
 					}
 				}
 			}
